@@ -80,6 +80,8 @@ EvFlip ==
        \cup (IF ~nonData /\ e.parse.kind = "Err" THEN {"C08.rejectsValid"} ELSE {})
        \cup (IF ~nonData /\ e.parse.kind = "Ok" /\ ~(e.parse.size = S0 /\ e.parse.len = Total(S0) /\ gotDiff = expDiff)
              THEN {"C08.parseContent"} ELSE {})
+       \* whatever is accepted must re-render to exactly the parsed array
+       \cup (IF e.parse.kind = "Ok" /\ ~(e.parse.rerenderWidth = Cols0 /\ e.parse.rerenderDiff = 0) THEN {"C08.rerender"} ELSE {})
        \cup (IF nonData /\ e.decode.kind = "Ok" THEN {"C08.decodeAcceptsDeviation"} ELSE {})
        \cup (IF Case.encoded /\ ~nonData /\ within /\ ~(e.decode.kind = "Ok" /\ e.decode.bytes = Case.msg)
              THEN {"C03.pixelDecode"} ELSE {})
